@@ -312,6 +312,11 @@ fn e2_case(p: &Point, id: &str) -> String {
                     p.item(order),
                     bare.join(", ")
                 ));
+            } else if order % 4 == 2 && (p.target == "fn" || p.target == "trait") {
+                // ... or the trait's *name* comes from the caller (`getter!(Foo)`), everything else from the macro body
+                let item = p.item(order).replace("trait TheTrait", "trait $t");
+                let attr_t = if p.target == "fn" { attr.replacen("TheTrait", "$t", 1) } else { attr.clone() };
+                s.push_str(&format!("{fb}macro_rules! __mk_item {{ ($t:ident) => {{\n#[{mac}({attr_t})]\n{item}\n}} }}\n__mk_item!(TheTrait);\n{probes}"));
             } else {
                 s.push_str(&format!("{fb}#[{mac}({attr})]\n{}\n{probes}", p.item(order)));
             }
